@@ -14,7 +14,7 @@ from ..world import World, inventory
 
 ID = "C08"
 LEVEL = "exploration"
-BUDGET = {"quick": {"n": 500, "wall_s": 400}, "thorough": {"n": 30000, "wall_s": 3300}}
+BUDGET = {"quick": {"n": 1500, "wall_s": 400}, "thorough": {"n": 30000, "wall_s": 3300}}
 RULE = ("per case: 1..3 groups of 2..7 paths with hard-link subsets over 1..3 roots and nesting 1..4; simulated "
         "btime/ctime/mtime/atime per inode with deliberate ties (seam relabelling); options: -n N on the command line or "
         "--rf-over inherited from group, --isolate on either side, -H on either side, chained --priority (12 kinds), "
